@@ -74,6 +74,8 @@ def main() -> int:
         hooks = ci % 5 == 0
         for rep in (0, 1):
             j = run.job(d, want=["tree"], cfg=cfg, hooks=hooks)
+            if label.startswith("sharing") and rep == 0:
+                j["via"] = "subprocess"  # a fresh interpreter per generation: nothing remembered from other documents
             j["name"] = f"pkg{ci}"
             j["work"] = j["work"] + f"r{rep}"
             minfo[j["id"]] = (ci, "rerun" if rep else "base", None)
@@ -101,6 +103,8 @@ def main() -> int:
             what = ["schemas", "paths", "both"][k % 3]
             pd = permute(d, r, what)
             j = run.job(pd, want=["tree"], cfg=cfg, hooks=ci % 5 == 0)
+            if label.startswith("sharing"):
+                j["via"] = "subprocess"
             j["name"] = f"pkg{ci}"
             minfo[j["id"]] = (ci, "perm", what)
             pjobs.append(j)
